@@ -29,6 +29,10 @@ class _BitVector(type):
 
     @_intrinsic
     def __getitem__(cls, size: int | slice):
+        # A vector type with a width cannot be parametrised again, the result
+        # would be cached as a subclass of the first parametrisation.
+        assert not hasattr(cls, "_width"), f"{cls} already has a width"
+
         if isinstance(size, slice):
             assert size.step is None, "step parameter not allowed in slice argument"
             assert isinstance(size.start, int), "start parameter must be integer"
